@@ -1261,7 +1261,6 @@ def event_rate(block_size, block_step, target, s0_mode='center'):
     fs = events.fs / block_step
 
     while True:
-        events = combine_events((events, (yield)))
         blocks = []
         while events.range_samples > block_size:
             block = events.get_range_samples(
@@ -1281,6 +1280,7 @@ def event_rate(block_size, block_step, target, s0_mode='center'):
             data = PipelineData([rate], s0=s0, fs=fs)
             target(data)
             s0 += len(rate)
+        events = combine_events((events, (yield)))
 
 
 ################################################################################
